@@ -1,5 +1,6 @@
 import Hgxv.Model.Wire
 import Hgxv.Model.C11
+import Hgxv.Model.C11Stats
 /-! Line protocol for C11 (stateless).
   `classes n`                      -> class masks in discovery order
   `orbits n`                       -> `c=l1,l2,..;c'=..` (`mapping` of generate_motifs, labels sorted)
@@ -9,7 +10,11 @@ import Hgxv.Model.C11
   `passes n <edges>`               -> `full|notfull|standard` tallies, each `c:count,..`
   `visited n <edges>`              -> `visited` after the full pass `|` after the not-full pass (sorted)
   `dcensus n <sources> <targets>`  -> `pattern=count|..` with pattern `s.s>t.t;..`
-  `dsets n <sources> <targets>`    -> node sets counted by the directed full pass `|` by the not-full pass -/
+  `dsets n <sources> <targets>`    -> node sets counted by the directed full pass `|` by the not-full pass
+  `dcounted n <sources> <targets>` -> `dCounted` (all classified node sets, sorted) `|` sum of the census counts
+  `diffsum <obs> <nulls>`          -> `diff_sum` entries `|` their sum of squares, `rej` outside the guard
+  `normvec <s> <a>`                -> `norm_vector(a)` with `math.sqrt(M) = s`
+  `ddiffsum <keys> <counts> <null keys> <null counts>` -> `directed_diff_sum` entries -/
 open Wire C11
 
 def tb3 := tbls 3
@@ -81,6 +86,31 @@ def step (s : Unit) : List String → Unit × String
       let s1 := dFullSets n E
       (s, showNatss (sortLex s1) ++ "|" ++ showNatss (sortLex (if n == 4 then dNotFullSets n E s1 else [])))
     | _, _ => (s, "bad-op")
+  | ["dcounted", n, src, tgt] =>
+    let n := n.toNat!
+    match natss? src, natss? tgt with
+    | some a, some b =>
+      (s, showNatss (sortLex (dCounted n (dUpTo n (a.zip b)))) ++ "|" ++
+            toString ((dirCensus n (a.zip b)).map (·.2)).sum)
+    | _, _ => (s, "bad-op")
+  | ["diffsum", obs, nulls] =>
+    match nats? obs, natss? nulls with
+    | some o, some ns =>
+      match diffSum o ns with
+      | some d => (s, showRats d ++ "|" ++ showRat (sumSq d))
+      | none => (s, "rej")
+    | _, _ => (s, "bad-op")
+  | ["normvec", sq, a] =>
+    match rat? sq, rats? a with
+    | some r, some v => (s, showRats (normVector r v))
+    | _, _ => (s, "bad-op")
+  | ["ddiffsum", ks, cs, nks, ncs] =>
+    match nats? ks, nats? cs, natss? nks, natss? ncs with
+    | some k, some c, some nk, some nc =>
+      if k.length == c.length && nk.length == nc.length && (nk.zip nc).all (fun p => p.1.length == p.2.length) then
+        (s, showRats (dDiffSum (k.zip c) ((nk.zip nc).map fun p => p.1.zip p.2)))
+      else (s, "bad-op")
+    | _, _, _, _ => (s, "bad-op")
   | _ => (s, "bad-op")
 
 def main : IO Unit := Wire.run step ()
